@@ -138,14 +138,34 @@ typedef struct {
     size_t modification_count;  /* Track tree modifications */
 } BPlusTreeIterator;
 
+static int
+BPlusTreeIterator_traverse(BPlusTreeIterator *self, visitproc visit, void *arg) {
+    Py_VISIT(self->tree);
+    return 0;
+}
+
+static int
+BPlusTreeIterator_clear(BPlusTreeIterator *self) {
+    Py_CLEAR(self->tree);
+    self->current_node = NULL;
+    return 0;
+}
+
 static void
 BPlusTreeIterator_dealloc(BPlusTreeIterator *self) {
+    PyObject_GC_UnTrack(self);
     Py_XDECREF(self->tree);
     Py_TYPE(self)->tp_free((PyObject *)self);
 }
 
 static PyObject *
 BPlusTreeIterator_next(BPlusTreeIterator *self) {
+    /* The tree reference is gone once the garbage collector cleared a cycle */
+    if (!self->tree) {
+        PyErr_SetNone(PyExc_StopIteration);
+        return NULL;
+    }
+
     /* Check if the tree has been modified since iterator creation */
     if (self->modification_count != self->tree->modification_count) {
         PyErr_SetString(PyExc_RuntimeError, 
@@ -209,7 +229,9 @@ static PyTypeObject BPlusTreeIteratorType = {
     .tp_basicsize = sizeof(BPlusTreeIterator),
     .tp_itemsize = 0,
     .tp_dealloc = (destructor)BPlusTreeIterator_dealloc,
-    .tp_flags = Py_TPFLAGS_DEFAULT,
+    .tp_flags = Py_TPFLAGS_DEFAULT | Py_TPFLAGS_HAVE_GC,
+    .tp_traverse = (traverseproc)BPlusTreeIterator_traverse,
+    .tp_clear = (inquiry)BPlusTreeIterator_clear,
     .tp_doc =
         "B+ tree iterator; generate keys or (key, value) pairs\n"
         "depending on invocation via keys() or items()",
@@ -220,7 +242,7 @@ static PyTypeObject BPlusTreeIteratorType = {
 
 static PyObject *
 BPlusTree_iter(BPlusTree *self) {
-    BPlusTreeIterator *iter = PyObject_New(BPlusTreeIterator, &BPlusTreeIteratorType);
+    BPlusTreeIterator *iter = PyObject_GC_New(BPlusTreeIterator, &BPlusTreeIteratorType);
     if (!iter) return NULL;
     
     Py_INCREF(self);
@@ -239,6 +261,7 @@ BPlusTree_iter(BPlusTree *self) {
     iter->current_index = 0;
     iter->include_values = 0;
     iter->modification_count = self->modification_count;
+    PyObject_GC_Track(iter);
     
     return (PyObject *)iter;
 }
@@ -250,7 +273,7 @@ BPlusTree_keys(BPlusTree *self, PyObject *Py_UNUSED(ignored)) {
 
 static PyObject *
 BPlusTree_items(BPlusTree *self, PyObject *Py_UNUSED(args)) {
-    BPlusTreeIterator *iter = PyObject_New(BPlusTreeIterator, &BPlusTreeIteratorType);
+    BPlusTreeIterator *iter = PyObject_GC_New(BPlusTreeIterator, &BPlusTreeIteratorType);
     if (!iter) return NULL;
     
     Py_INCREF(self);
@@ -269,6 +292,7 @@ BPlusTree_items(BPlusTree *self, PyObject *Py_UNUSED(args)) {
     iter->current_index = 0;
     iter->include_values = 1;
     iter->modification_count = self->modification_count;
+    PyObject_GC_Track(iter);
     
     return (PyObject *)iter;
 }
